@@ -247,6 +247,12 @@ def _parse_list_rule(rule):
         # Handle bare strings
         if isinstance(inner_rule, str):
             inner_rule = [inner_rule]
+        elif not isinstance(inner_rule, (list, tuple)):
+            # A mapping or a set would be iterated as if its keys were
+            # checks; like any other non-rule value it fails closed
+            LOG.error('Failed to understand rule %s', inner_rule)
+            or_list.append(_checks.FalseCheck())
+            continue
 
         # Parse the inner rules into Check objects
         and_list = [_parse_check(r) for r in inner_rule]
